@@ -86,6 +86,7 @@ type Stats struct {
 	Stubs         map[string]int
 	Samples       []Sample
 	MergeOK       int
+	CacheHits     int
 	MergeAbort    int
 }
 
@@ -108,6 +109,7 @@ func (s *Stats) add(o *Stats) {
 	s.QErrors += o.QErrors
 	s.SolverSec += o.SolverSec
 	s.MergeOK += o.MergeOK
+	s.CacheHits += o.CacheHits
 	s.MergeAbort += o.MergeAbort
 	for k, v := range o.Reached {
 		s.Reached[k] += v
@@ -273,6 +275,8 @@ type Worker struct {
 	journal  []journalEnt
 	mergeDepthAbort bool
 	inInit          bool
+	models          []*evalModel
+	CacheHits       int
 	callStack       []*ssa.Function
 	recoverFrames   []*frame
 	taskSeq         int
@@ -340,6 +344,7 @@ func (w *Worker) runPath(j Job) {
 	w.globals = map[*ssa.Global]*Value{}
 	w.nextBack = 0
 	w.depth = 0
+	w.models = nil
 	w.callStack = w.callStack[:0]
 	w.onceDone = map[*Value]bool{}
 	w.merging = 0
@@ -463,6 +468,15 @@ func (w *Worker) addPC(c *Term) {
 	}
 	w.pcSet[c] = true
 	w.pc = append(w.pc, c)
+	if len(w.models) > 0 {
+		keep := w.models[:0]
+		for _, m := range w.models {
+			if e := m.eval(c); e.ok && e.b {
+				keep = append(keep, m)
+			}
+		}
+		w.models = keep
+	}
 }
 
 // feasible reports whether pc ∧ c is satisfiable (unknown counts as feasible).
@@ -476,8 +490,20 @@ func (w *Worker) feasible(c *Term) bool {
 	if w.pcSet[w.tt.Not(c)] {
 		return false
 	}
+	for _, m := range w.models {
+		if e := m.eval(c); e.ok && e.b {
+			w.stats.CacheHits++
+			return true
+		}
+	}
 	as := append(append([]*Term(nil), w.pc...), c)
-	res, _ := w.solver.Check(as, nil)
+	res, model := w.solver.Check(as, w.inputTerms())
+	if res == "sat" && model != nil {
+		if len(w.models) >= 4 {
+			w.models = w.models[1:]
+		}
+		w.models = append(w.models, w.newEvalModel(model))
+	}
 	return res != "unsat"
 }
 
@@ -542,6 +568,16 @@ func (w *Worker) branch(c *Term) bool {
 
 // choose is a case split over [lo,hi].
 func (w *Worker) choose(name string, lo, hi int64) int64 {
+	// repeated names on one path are numbered name, name#2, name#3, ...
+	cnt := 1
+	for _, c := range w.chooses {
+		if c.Name == name || strings.HasPrefix(c.Name, name+"#") {
+			cnt++
+		}
+	}
+	if cnt > 1 {
+		name = fmt.Sprintf("%s#%d", name, cnt)
+	}
 	if w.merging > 0 {
 		panic(mergeAbort{"choose inside merge"})
 	}
